@@ -9,6 +9,7 @@ import (
 	"path/filepath"
 	"testing"
 
+	"github.com/itchio/lake/tlc"
 	"github.com/itchio/wharf/archiver"
 	"github.com/itchio/wharf/pwr"
 	"pgregory.net/rapid"
@@ -57,6 +58,7 @@ func TestC06(t *testing.T) {
 		if mode > 2 {
 			faults = GenFaults(rt, signed, FaultOpts{Content: true, Delete: true, KindSwap: true, Links: true, Special: true, MaxFaults: 6})
 		}
+		twinDeep := false
 		if mode > 2 && rapid.IntRange(0, 7).Draw(rt, "twins") == 0 {
 			// twin subtrees, one of them replaced by a symlink to the other (or to the parent): its
 			// entries seem to be there when looked up through the link
@@ -69,6 +71,16 @@ func TestC06(t *testing.T) {
 				signed[root+"/l"] = &Entry{Kind: KLink, Dest: "x"}
 			}
 			same := rapid.Bool().Draw(rt, "twinsame")
+			if twinDeep = rapid.IntRange(0, 2).Draw(rt, "twindeep") == 0; twinDeep {
+				// several directories below a chain of two levels that the container will not list
+				twin = func(root string, seed uint64) {
+					signed[root+"/m/b/p"] = &Entry{Kind: KFile, Data: Bytes(seed+2, 70001)}
+					signed[root+"/m/b/q"] = &Entry{Kind: KFile, Data: Bytes(seed+3, 10)}
+					signed[root+"/m/c/r"] = &Entry{Kind: KFile, Data: Bytes(seed+4, 70000)}
+					signed[root+"/m/c/s"] = &Entry{Kind: KFile, Data: Bytes(seed+5, 10)}
+					signed[root+"/m/d/t"] = &Entry{Kind: KFile, Data: Bytes(seed+6, 5)}
+				}
+			}
 			twin("t1", 5)
 			if same {
 				twin("t2", 5)
@@ -77,8 +89,11 @@ func TestC06(t *testing.T) {
 			}
 			signed.Normalize()
 			which := rapid.SampledFrom([]string{"t1", "t2", "t1/sub", "t1/lib.so", "t2/lib.so.1"}).Draw(rt, "twinwhich")
+			if twinDeep {
+				which = rapid.SampledFrom([]string{"t1", "t2", "t1/m"}).Draw(rt, "twindeepwhich")
+			}
 			// (the last two: a file replaced by a symlink to a file with the very same content)
-			dest := map[string]string{"t1": "t2", "t2": "t1", "t1/sub": "../t2/sub", "t1/lib.so": "lib.so.1", "t2/lib.so.1": "../t1/lib.so"}[which]
+			dest := map[string]string{"t1": "t2", "t2": "t1", "t1/sub": "../t2/sub", "t1/lib.so": "lib.so.1", "t2/lib.so.1": "../t1/lib.so", "t1/m": "../t2/m"}[which]
 			faults = append([]Fault{{Kind: "tolink", Path: which, Dest: dest}}, faults...)
 			Ev.Probe("directory_replaced_by_symlink_to_twin_directory")
 		}
@@ -86,6 +101,9 @@ func TestC06(t *testing.T) {
 		if rapid.Bool().Draw(rt, "starve") {
 			spec.Policy = 3
 			spec.Starve = rapid.SampledFrom([]string{"pwr.ArchiveHealer", "pwr.ValidatorContext.validate", "main", "pwr.ValidatingPool", "pwr.AggregateWounds"}).Draw(rt, "starvewho")
+			if twinDeep && rapid.Bool().Draw(rt, "twinstarvehealer") {
+				spec.Starve = "pwr.ArchiveHealer"
+			}
 		}
 		damaged, applied := ApplyFaults(signed, faults)
 		switch mode {
@@ -96,6 +114,19 @@ func TestC06(t *testing.T) {
 		defer cleanup()
 		pristine := filepath.Join(dir, "signed")
 		si := signTree(signed, pristine)
+		if twinDeep && rapid.IntRange(0, 3).Draw(rt, "twinimplied") != 0 {
+			// the container lists what a walk of a zip archive without directory entries lists
+			var kept []*tlc.Dir
+			for _, d := range si.Container.Dirs {
+				switch d.Path {
+				case "t1", "t1/m", "t2", "t2/m":
+					continue
+				}
+				kept = append(kept, d)
+			}
+			si.Container.Dirs = kept
+			Ev.Probe("twin_chain_of_two_implied_directory_levels")
+		}
 		if rapid.IntRange(0, 2).Draw(rt, "shuffledirs") == 0 {
 			shuffleDirs(si, rapid.Uint64().Draw(rt, "shuffleseed"))
 		}
@@ -113,6 +144,15 @@ func TestC06(t *testing.T) {
 		zipOf(pristine, zipPath)
 		// (the directory's own name is nobody's business: percent signs, spaces, colons)
 		target := filepath.Join(dir, rapid.SampledFrom([]string{"target", "target", "target", "100% Orange Juice", "50%", "1:x y", "a#b?c"}).Draw(rt, "targetname"))
+		// ... nor is the way its path is spelled (the string is handed over as it is)
+		switch rapid.IntRange(0, 6).Draw(rt, "targetspelling") {
+		case 0:
+			target = dir + "/./" + filepath.Base(target)
+		case 1:
+			target = dir + "//" + filepath.Base(target)
+		case 2:
+			target = target + "/"
+		}
 		if mode != 2 {
 			Must(damaged.Materialize(target), "materialize damaged")
 		}
